@@ -178,13 +178,46 @@ BeltCounterBlock(c, iv, i) ==
 BeltKsBlock(c, iv, idx) == EncB(c, BeltCounterBlock(c, iv, NAddInt(idx, 1)))
 
 --------------------------------------------------------------------------
-(* PKCS#7 *)
-Pkcs7Pad(m, bs) == LET k == bs - (Len(m) % bs) IN m \o Rep(ByteOf(k), k)
-Pkcs7Ok(p, bs) ==
-  /\ Len(p) > 0 /\ Len(p) % bs = 0 /\ KnownB(p[Len(p)])
-  /\ LET k == ValOf(p[Len(p)]) IN
-       /\ k >= 1 /\ k <= bs
-       /\ \A i \in (Len(p) - k + 1)..Len(p) : KnownB(p[i]) /\ ValOf(p[i]) = k
+(* The padding schemes of block-padding 0.4 as the padded front-ends of the `cipher` crate use them   *)
+(* (encrypt_padded*: InOutBufReserved::into_padded_blocks; decrypt_padded*: Padding::unpad_blocks).   *)
+(*   pkcs7     k bytes of value k (k = bs - n mod bs, 1..bs); strict check when removing              *)
+(*   iso10126  padded like pkcs7; only the last byte is checked when removing                         *)
+(*   ansix923  k-1 zero bytes, then k                                                                 *)
+(*   iso7816   0x80, then zero bytes                                                                  *)
+(*   zero      zero bytes up to the block boundary, nothing for an aligned message ("ambiguous")      *)
+(*   none      aligned messages only, nothing added or removed                                        *)
+PadSchemes == {"pkcs7", "iso10126", "ansix923", "iso7816", "zero", "none"}
+PadReversible(P) == P \in {"pkcs7", "iso10126", "ansix923", "iso7816"}
+PadFits(P, n, bs) == P # "none" \/ n % bs = 0
+PadLen(P, n, bs) == IF PadReversible(P) \/ (P = "zero" /\ n % bs # 0) THEN (n \div bs + 1) * bs ELSE n
+PadMsg(P, m, bs) ==
+  LET k == PadLen(P, Len(m), bs) - Len(m) IN
+  IF k = 0 THEN m
+  ELSE CASE P \in {"pkcs7", "iso10126"} -> m \o Rep(ByteOf(k), k)
+         [] P = "ansix923" -> m \o Rep(ByteOf(0), k - 1) \o <<ByteOf(k)>>
+         [] P = "iso7816"  -> m \o <<ByteOf(128)>> \o Rep(ByteOf(0), k - 1)
+         [] OTHER          -> m \o Rep(ByteOf(0), k)
+(* length of the message left after removing the padding from p (a whole number of blocks), -1 if the *)
+(* padding is malformed; a byte the model cannot know (poison) in the inspected part counts as malformed *)
+UnpadLen(P, p, bs) ==
+  LET n    == Len(p)
+      last == IF n > 0 /\ KnownB(p[n]) THEN ValOf(p[n]) ELSE -1
+      nz   == {i \in (n - bs + 1)..n : ~KnownB(p[i]) \/ ValOf(p[i]) # 0}       \* non-zero bytes of the last block
+      top  == CHOOSE j \in nz : \A i \in nz : i <= j
+  IN  CASE P = "none" -> n
+        [] n = 0 -> IF P = "zero" THEN 0 ELSE -1
+        [] P = "pkcs7" ->
+             IF last >= 1 /\ last <= bs /\ (\A i \in (n - last + 1)..n : KnownB(p[i]) /\ ValOf(p[i]) = last)
+             THEN n - last ELSE -1
+        [] P = "iso10126" -> IF last >= 1 /\ last <= bs THEN n - last ELSE -1
+        [] P = "ansix923" ->
+             IF last >= 1 /\ last <= bs /\ (\A i \in (n - last + 1)..(n - 1) : KnownB(p[i]) /\ ValOf(p[i]) = 0)
+             THEN n - last ELSE -1
+        [] P = "iso7816" -> IF nz # {} /\ KnownB(p[top]) /\ ValOf(p[top]) = 128 THEN top - 1 ELSE -1
+        [] P = "zero" -> IF nz = {} THEN n - bs ELSE IF \A i \in nz : KnownB(p[i]) THEN top ELSE -1
+(* PKCS#7 under its old names (MC_Ref and the design text use them) *)
+Pkcs7Pad(m, bs) == PadMsg("pkcs7", m, bs)
+Pkcs7Ok(p, bs) == Len(p) > 0 /\ Len(p) % bs = 0 /\ UnpadLen("pkcs7", p, bs) >= 0
 Pkcs7Unpad(p) == Slice(p, 1, Len(p) - ValOf(p[Len(p)]))
 
 --------------------------------------------------------------------------
